@@ -158,11 +158,23 @@ impl KsfSpec for argon2::Argon2<'static> {
         let t = param["t"].as_u64().ok_or("t")? as u32;
         let p = param["p"].as_u64().ok_or("p")? as u32;
         let params = argon2::Params::new(m, t, p, None).map_err(|e| format!("{e}"))?;
-        Ok(argon2::Argon2::new(
-            argon2::Algorithm::Argon2id,
-            argon2::Version::V0x13,
-            params,
-        ))
+        let alg = match param["alg"].as_str().unwrap_or("id") {
+            "d" => argon2::Algorithm::Argon2d,
+            "i" => argon2::Algorithm::Argon2i,
+            _ => argon2::Algorithm::Argon2id,
+        };
+        let ver = match param["ver"].as_u64().unwrap_or(0x13) {
+            0x10 => argon2::Version::V0x10,
+            _ => argon2::Version::V0x13,
+        };
+        match param["secret"].as_str() {
+            Some(h) => {
+                // the instance borrows its secret: leak it so that the instance can live in the store
+                let secret: &'static [u8] = Box::leak(hex::decode(h).map_err(|e| format!("{e}"))?.into_boxed_slice());
+                argon2::Argon2::new_with_secret(secret, alg, ver, params).map_err(|e| format!("{e}"))
+            }
+            None => Ok(argon2::Argon2::new(alg, ver, params)),
+        }
     }
     fn describe(&self) -> Value {
         json!("argon2")
